@@ -86,6 +86,26 @@ static void handle(size_t nw, char **w) {
 		if (ok) puthex(d, dl); else printf("ERR");
 		free(d); free(key.p); free_chunks(ch, k);
 	}
+	else if (!strcmp(w[0], "hmacv") && nw == 5) {        /* hmac_init/update/finish_and_verify against a candidate MAC */
+		const DIGEST *dg = digest_from_name(w[1]);
+		buf_t key = hex2buf(w[2]), mac = hex2buf(w[4]); size_t k = split_chunks(w[3], ch, MAXC), i;
+		HMAC_CTX c; int ok = 1, r = -1;
+		if (!dg || hmac_init(&c, dg, key.p, key.n) != 1) ok = 0;
+		for (i = 0; ok && i < k; i++) if (hmac_update(&c, ch[i].p, ch[i].n) < 0) ok = 0;
+		if (ok) r = hmac_finish_and_verify(&c, mac.p, mac.n);
+		if (!ok) printf("ERR"); else printf("%s", r == 1 ? "ACCEPT" : "REJECT");
+		free(key.p); free(mac.p); free_chunks(ch, k);
+	}
+	else if (!strcmp(w[0], "sm3dg") && nw == 3) {        /* sm3_digest_*: plain SM3 (key "null") or SM3-HMAC with a 12..64-byte key */
+		int nokey = !strcmp(w[1], "null");
+		buf_t key = nokey ? (buf_t){ NULL, 0 } : hex2buf(w[1]); size_t k = split_chunks(w[2], ch, MAXC), i;
+		SM3_DIGEST_CTX c; uint8_t *d = malloc(32); int ok = 1;
+		if (sm3_digest_init(&c, nokey ? NULL : key.p, key.n) != 1) ok = 0;
+		for (i = 0; ok && i < k; i++) if (sm3_digest_update(&c, ch[i].p, ch[i].n) != 1) ok = 0;
+		if (ok && sm3_digest_finish(&c, d) != 1) ok = 0;
+		if (ok) puthex(d, 32); else printf("ERR");
+		free(d); if (!nokey) free(key.p); free_chunks(ch, k);
+	}
 	else if (!strcmp(w[0], "hmac1") && nw == 4) {        /* generic one-shot hmac() */
 		const DIGEST *dg = digest_from_name(w[1]);
 		buf_t key = hex2buf(w[2]), m = hex2buf(w[3]);
